@@ -108,6 +108,7 @@ extern const int g_nqueries;
 const QueryDef* query_find(const char* name);
 
 Op gen_query_op(Rng& r, int id);
+Op gen_query_op_for(Rng& r, int id, int query_index);
 Op gen_self_contained_op(Rng& r, int id, bool crystal_catalogue);   // probe-able op (no handles in or out)
 std::string gen_formula(Rng& r, int depth);
 std::string gen_compound_arg(Rng& r, bool* is_null);
